@@ -134,7 +134,7 @@ def run(ctx: Ctx) -> int:
             n_ok += 1
     rep.notes["round_trips_conforming"] = n_ok
     rep.notes["generation_raised"] = n_raise
-    if n_ok < 50:
+    if n_ok < 50 and not rep.violations:
         raise MachineryError(f"vacuity: only {n_ok} round trips conformed")
     for s in scns[:2]:
         rep.sample({"content": s["c"]})
